@@ -7,7 +7,7 @@ S_RULES = ['S-matmul', 'S-einsum', 'S-einsum-out', 'S-tensordot', 'S-concat',
            'S-reshape', 'S-bcast', 'S-store', 'S-slot', 'S-ndim', 'S-solve',
            'S-square', 'S-index', 'S-unpack', 'S-axis', 'S-transpose',
            'S-item', 'S-choice', 'S-ravel', 'S-kind', 'S-bigprod', 'S-bitwidth',
-           'S-squeeze', 'K-truth', 'K-inarr', 'S-order',
+           'S-squeeze', 'K-truth', 'K-inarr', 'S-order', 'S-layout',
            'X-arity',
            'X-name']
 
